@@ -42,6 +42,8 @@ class Token:
         self.convs = []            # productions performed: dict(pid, kind, key, src, src_mtime0, target, tgt_mtime, tag)
         self.loads = []            # (pid, file, bytes or None) what each load observed
         self.stores = []           # (pid, file, text) complete buffers handed to a store
+        self.taken = []            # (pid, kind, path, mtime, hit): the artefact version (path @ mtime) a run goes on to use,
+                                   # recorded at the moment it takes it (cache hit / own production); one per result, in order
         self.errors = {}
 
     # ---- worker side
@@ -196,15 +198,23 @@ class Instrument:
         # --- lookups
         orig_fcd = G.find_converted_db
 
+        def took(kind, path, hit):
+            pid = getattr(_tls, "pid", None)
+            if pid is not None and path is not None:
+                tok.taken.append((pid, kind, os.path.abspath(path), os.path.getmtime(path), hit))
+
         def find_converted_db(*a, **kw):
             tok.barrier("lookup", 0)
-            return orig_fcd(*a, **kw)
+            r = orig_fcd(*a, **kw)
+            took("db", r, True)        # same step as the lookup: no barrier in between
+            return r
         self._set(G, "find_converted_db", find_converted_db)
 
         def inline(orig, f):
             def w(*a, **kw):
                 r = orig(*a, **kw)
                 tok.pseudo("lookup", f)
+                took({1: "index", 2: "bed", 3: "align"}[f], r, True)
                 return r
             return w
         self._set(RM, "find_stored_index", inline(RM.find_stored_index, 1))
@@ -222,6 +232,7 @@ class Instrument:
             os.utime(target, (c, c))
             tok.convs.append({"pid": _tls.pid, "kind": kind, "key": key, "src": src, "src_mtime0": m0,
                               "target": os.path.abspath(target), "tgt_mtime": float(c), "tag": tag})
+            took(kind, target, False)
 
         def fake_gtf2db(gtf, db, complete_db=False, check_gtf=True):
             produce("db", os.path.abspath(gtf), gtf, db, bool(complete_db))
@@ -348,4 +359,4 @@ def run_scenario(home, cfgs, schedule, clock0, grant_timeout=60):
                 files[f] = None
     trace = [(p, l, f) for (p, l, f) in tok.trace if l != "start"]
     return {"trace": trace, "outcomes": outcomes, "files": files, "convs": tok.convs, "loads": tok.loads,
-            "stores": tok.stores, "clock": tok.clock}
+            "stores": tok.stores, "clock": tok.clock, "taken": tok.taken}
